@@ -623,6 +623,14 @@ class HandleEnv:
                              bool(last) and last[0].concrete and last[0].v == ord('Z')))
         self.events.append(('client_read', k, held))
         self.events.append(('csmap', k, [b.idx for b in self.backends if b.held], self.csmap_targets()))
+        if getattr(self, 'reload_before', None) == k and not getattr(self, '_reloaded', False):
+            # a RELOAD re-created this pool while the client was idle: from now on get_pool hands out a NEW pool object (same servers and
+            # settings, another config_hash)
+            self._reloaded = True
+            p = self.pool
+            self.pool = Agg(list(p.fields), p.ty, list(p.names) if p.names else None)
+            setf(self.prog, self.pool, 'ConnectionPool', 'config_hash', BV(64, 0x5eed))
+            self.events.append(('reload', k))
 
     def csmap_targets(self):
         """Server process ids a CancelRequest with this client's key would be sent to, per the cancel map."""
